@@ -29,4 +29,10 @@ def identityMin (minTensor minSeq minOptional : Nat) : Kind → Nat
   | .seq => minSeq
   | .optional => minOptional
 
+/-- `_Inline.opset_req` (`_inline.py`): the inlined model's own imports, the internal minimum, and 16 when an
+    output that is directly one of the model's inputs - forwarded by an `Identity` that `_Inline.to_onnx` adds -
+    is optional-typed. `passThrough` = kinds of the outputs that are directly inputs. -/
+def inlineReq (imports : List (String × Nat)) (passThrough : List Kind) : List (String × Nat) :=
+  imports ++ [("", 14)] ++ (if passThrough.any (· == Kind.optional) then [("", 16)] else [])
+
 end InternalReq
